@@ -70,7 +70,10 @@ class TableState:
         self.rows = rows
 
     def copy(self):
-        return TableState(self.table, [r.copy() for r in self.rows])
+        ts = TableState(self.table, [r.copy() for r in self.rows])
+        if hasattr(self, "tied_pk"):
+            ts.tied_pk = self.tied_pk
+        return ts
 
 
 class Abort(Exception):
